@@ -148,6 +148,8 @@ def evolve(cellular_automaton, timesteps, apply_rule, r=1, memoize=False):
     :return: a matrix, containing the results of the evolution, where the number of rows equal the number of time steps
              specified
     """
+    if isinstance(memoize, np.bool_):
+        memoize = bool(memoize)
     if callable(timesteps):
         return _evolve_dynamic(cellular_automaton, timesteps, apply_rule, r, memoize)
     else:
